@@ -227,7 +227,7 @@ def plans(world, info, seed, tier):
         j = rng.randrange(n)
         specs.append(mk([_fault(rng, j, rng.choice(KINDS))], tag="single"))
         return specs
-    per_j = len(KINDS) if tier == "thorough" else 4
+    per_j = len(KINDS) if tier == "thorough" else 6
     rot = rng.randrange(len(KINDS))
     for j in range(n):
         if tier == "thorough":
@@ -463,6 +463,16 @@ def execute(spec):
     # monitored (not a clause of the property): does a plain second solve() on the *same* object recover?
     retry = out.get("retry")
     retry_tag = None
+    if (retry is not None and retry.get("solved") and world["class"] != "NumPathsOptimization" and not ref_out["system_exit"]
+            and not ref.get("solve_exc") and retry.get("objective") is not None and not spec.get("solve_first")):
+        # a later solve() on the same object, with no fault in it: whether it recovers is the library's choice, but a
+        # claimed solution must be the proven one
+        if not ref["solved"] or not _same_answer(world, retry.get("objective"), ref["objective"]):
+            v_ = Violation(ID, "C13.wrong_answer", world["class"], {"after": "a faulted solve() followed by an undisturbed solve() on the same object",
+                                                                    "objective": retry.get("objective"), "reference": ref.get("objective") if ref["solved"] else "unsolved"})
+            if v_.key not in seen:
+                seen.add(v_.key)
+                uniq.append(dict(v_))
     if retry is not None and ref["solved"] and not (out.get("post") or {}).get("solved"):
         ok = bool(retry.get("solved")) and (world["class"] == "NumPathsOptimization" or _same_answer(world, retry.get("objective"), ref["objective"]))
         retry_tag = "retry_same_object:" + ("recovered" if ok else "not_recovered:" + world["class"])
